@@ -145,6 +145,10 @@ fn fold(rx: &mut mpsc::UnboundedReceiver<BgpEvent>) -> Folded {
     f
 }
 
+/// The Adj-RIB-In the RIB holds: pre-policy from the entries with the attributes as received,
+/// post-policy from the API's view of the table (every entry import policy accepted, whatever
+/// next-hop tracking says about it) - NOT from iter_reach_post, which is what the snapshot
+/// under test uses.
 fn rib(tables: &TableManager) -> (BTreeMap<Key, String>, BTreeMap<Key, String>) {
     let mut pre = BTreeMap::new();
     let mut post = BTreeMap::new();
@@ -153,8 +157,12 @@ fn rib(tables: &TableManager) -> (BTreeMap<Key, String>, BTreeMap<Key, String>) 
         for r in t.rtable.iter_reach(Family::IPV4) {
             pre.insert((r.source.remote_addr, format!("{}", r.net.nlri), r.net.path_id), attr_fp(&r.attr));
         }
-        for r in t.rtable.iter_reach_post(Family::IPV4) {
-            post.insert((r.source.remote_addr, format!("{}", r.net.nlri), r.net.path_id), attr_fp(&r.attr));
+        for d in t.rtable.destinations(table::TableQuery::Global, Family::IPV4, vec![], true) {
+            for p in &d.paths {
+                if !p.filtered {
+                    post.insert((p.source.remote_addr, format!("{}", d.net), p.remote_path_id), attr_fp(&p.attr));
+                }
+            }
         }
     }
     (pre, post)
@@ -426,6 +434,9 @@ enum SOp {
     /// LLGR timer expired / EOR after LLGR: drop_llgr_stale_families
     LlgrPurge,
     PolicyToggle,
+    /// next-hop tracking reports the next hop of all routes unreachable / reachable again
+    NhDown,
+    NhUp,
     SoftResetIn,
     StartDeferral,
     EndDeferral,
@@ -453,6 +464,7 @@ struct SeqSys {
     b_stale: bool,
     /// B's remaining routes are in the LLGR stale period
     b_llgr: bool,
+    nh_down: bool,
     srcs: [Arc<table::Source>; 2],
     broken: BTreeSet<String>,
 }
@@ -473,7 +485,7 @@ impl crate::verif::vx::bfs::Model for SeqModel {
         }
     }
     fn init(&self) -> SeqSys {
-        SeqSys { tables: Arc::new(TableManager::new(2)), sub: None, pre: BTreeMap::new(), post: BTreeMap::new(), policy_on: false, deferring: false, ever_deferred: false, b_gen: 0, b_up: true, b_stale: false, b_llgr: false, srcs: [src(1), src(2)], broken: BTreeSet::new() }
+        SeqSys { tables: Arc::new(TableManager::new(2)), sub: None, pre: BTreeMap::new(), post: BTreeMap::new(), policy_on: false, deferring: false, ever_deferred: false, b_gen: 0, b_up: true, b_stale: false, b_llgr: false, nh_down: false, srcs: [src(1), src(2)], broken: BTreeSet::new() }
     }
     fn step(&self, sys: &mut SeqSys, op: usize, out: &mut Vec<(String, String)>) -> bool {
         let netk = |pfx: u8| if pfx == 0 { self.px.0[0] } else { self.px.1[0] };
@@ -553,6 +565,20 @@ impl crate::verif::vx::bfs::Model for SeqModel {
                 sys.policy_on = !sys.policy_on;
                 sys.tables.import_policy.store(if sys.policy_on { Some(reject_all_import()) } else { None });
             }
+            SOp::NhDown => {
+                if sys.nh_down {
+                    return false;
+                }
+                sys.nh_down = true;
+                sys.tables.update_nexthop_validity(nh().unwrap().addr(), false);
+            }
+            SOp::NhUp => {
+                if !sys.nh_down {
+                    return false;
+                }
+                sys.nh_down = false;
+                sys.tables.update_nexthop_validity(nh().unwrap().addr(), true);
+            }
             SOp::SoftResetIn => sys.tables.soft_reset_in(sys.srcs[0].remote_addr),
             SOp::StartDeferral => {
                 if sys.deferring || sys.ever_deferred || sys.tables.table_state(Family::IPV4).num_destination != 0 {
@@ -625,7 +651,7 @@ impl crate::verif::vx::bfs::Model for SeqModel {
     fn fingerprint(&self, sys: &SeqSys) -> Vec<u8> {
         let (pre, post) = rib(&sys.tables);
         let filtered: Vec<String> = sys.tables.collect_paths(table::TableQuery::Global, Family::IPV4, vec![], true).iter().map(|d| format!("{}:{:?}", d.net, d.paths.iter().map(|p| (p.source.remote_addr, p.filtered)).collect::<Vec<_>>())).collect();
-        format!("{:?}|{:?}|{:?}|{}|{:?}|{:?}|{}|{}|{}|{:?}|{:?}", pre, post, filtered, sys.sub.is_some(), sys.pre, sys.post, sys.policy_on, sys.deferring, sys.ever_deferred, (sys.b_gen, sys.b_up, sys.b_stale, sys.b_llgr, stale_fp(&sys.tables)), sys.broken).into_bytes()
+        format!("{:?}|{:?}|{:?}|{}|{:?}|{:?}|{}|{}|{}|{:?}|{:?}", pre, post, filtered, sys.sub.is_some(), sys.pre, sys.post, sys.policy_on, sys.deferring, sys.ever_deferred, (sys.b_gen, sys.b_up, sys.b_stale, sys.b_llgr, sys.nh_down, stale_fp(&sys.tables)), sys.broken).into_bytes()
     }
 }
 
@@ -699,6 +725,7 @@ fn seq_model(px: &(Vec<u8>, Vec<u8>)) -> SeqModel {
     }
     ops.push(SOp::Insert { peer: 0, pfx: 0, attr: 2 });
     ops.extend([SOp::GrDown, SOp::Reconnect, SOp::PurgeStale, SOp::TimerDrop, SOp::LlgrStart, SOp::LlgrPurge]);
+    ops.extend([SOp::NhDown, SOp::NhUp]);
     ops.extend([SOp::PeerDrop, SOp::PolicyToggle, SOp::SoftResetIn, SOp::StartDeferral, SOp::EndDeferral, SOp::Subscribe, SOp::Unsubscribe]);
     SeqModel { ops, px: px.clone() }
 }
